@@ -292,6 +292,11 @@ def SyncDown (loc : List Row) (agg : List ACert) : Prop :=
     ((∃ c, agg.getLast? = some c ∧ Matches r c) ∨
      (∃ pre c d, agg = pre ++ [c, d] ∧ Matches r c ∧ r.status = c.status ∧ c.status.isOpen = false))
 
+/-- a certificate carries exactly the events of its block range, and its new exit root is the one after its last exit -/
+def ContentOK (l2 : List L2Blk) (c : ACert) : Prop :=
+  c.to_ ≤ lastProcessed l2 ∧ c.bridges = bridgesIn l2 c.from_ c.to_ ∧ c.claims = claimsIn l2 c.from_ c.to_ ∧
+  c.new = newLER c.prev c.bridges
+
 structure Inv (s : Sys) : Prop where
   withPrev : s.cfg.omitPrev = false
   l2wf : L2WF s.l2
@@ -302,9 +307,11 @@ structure Inv (s : Sys) : Prop where
   rows : ∀ r ∈ s.loc, ∃ c, certById s.agg r.id = some c ∧ Matches r c
   syncUp : s.up = true → SyncUp s.loc s.agg
   syncDown : s.up = false → SyncDown s.loc s.agg
+  l2sorted : s.l2.Pairwise (fun a b => a.num < b.num)
+  content : ∀ c ∈ s.agg, ContentOK s.l2 c
 
 theorem init_inv (cfg : Cfg) (h : cfg.omitPrev = false) : Inv { cfg := cfg } := by
-  refine ⟨h, ?_, ?_, ?_, ?_, ?_, ?_, ?_, ?_⟩
+  refine ⟨h, ?_, ?_, ?_, ?_, ?_, ?_, ?_, ?_, ?_, ?_⟩
   · intro b hb; simp at hb
   · intro i hi; simp at hi
   · intro i hi; simp at hi
@@ -313,6 +320,8 @@ theorem init_inv (cfg : Cfg) (h : cfg.omitPrev = false) : Inv { cfg := cfg } := 
   · intro r hr; simp at hr
   · intro hu; simp at hu
   · intro _; simp [SyncDown, lastRow]
+  · simp
+  · intro c hc; simp at hc
 
 /-! #### storage lemmas -/
 
@@ -474,11 +483,11 @@ theorem poll_map (s : Sys) : ∃ f, StatusOnly s.agg f ∧ (poll s).1 = { s with
 
 theorem Inv.of_eq {s s' : Sys} (hi : Inv s) (h1 : s'.cfg = s.cfg) (h2 : s'.l2 = s.l2) (h3 : s'.agg = s.agg)
     (h4 : s'.loc = s.loc) (h5 : s'.up = s.up) : Inv s' := by
-  obtain ⟨a1, a2, a3, a4, a5, a6, a7, a8, a9⟩ := hi
+  obtain ⟨a1, a2, a3, a4, a5, a6, a7, a8, a9, a10, a11⟩ := hi
   cases s; cases s'
   simp only at h1 h2 h3 h4 h5
   subst h1 h2 h3 h4 h5
-  exact ⟨a1, a2, a3, a4, a5, a6, a7, a8, a9⟩
+  exact ⟨a1, a2, a3, a4, a5, a6, a7, a8, a9, a10, a11⟩
 
 theorem statusOnly_fields (agg : List ACert) (f : Row → Row) (hf : StatusOnly agg f) (r : Row) :
     (f r).id = r.id ∧ (f r).height = r.height := by
@@ -499,7 +508,7 @@ theorem lastRow_map (loc : List Row) (f : Row → Row) : lastRow (loc.map f) = (
 /-- refreshing statuses keeps the invariant -/
 theorem inv_map_loc (s : Sys) (hi : Inv s) (f : Row → Row) (hf : StatusOnly s.agg f) :
     Inv { s with loc := s.loc.map f } := by
-  refine ⟨hi.withPrev, hi.l2wf, hi.ids, hi.closedPrefix, hi.chain, ?_, ?_, ?_, ?_⟩
+  refine ⟨hi.withPrev, hi.l2wf, hi.ids, hi.closedPrefix, hi.chain, ?_, ?_, ?_, ?_, hi.l2sorted, hi.content⟩
   · simp only
     rw [List.pairwise_map]
     refine hi.sorted.imp ?_
@@ -551,6 +560,51 @@ theorem inv_map_loc (s : Sys) (hi : Inv s) (f : Row → Row) (hf : StatusOnly s.
         · rw [e]; exact hst
         · rw [hc] at hc'; cases hc'; rw [e]
 
+
+/-! #### L2 data only grows -/
+
+theorem l2_le_lastProcessed (l2 : List L2Blk) (hs : l2.Pairwise (fun a b => a.num < b.num)) :
+    ∀ x ∈ l2, x.num ≤ lastProcessed l2 := by
+  intro x hx
+  unfold lastProcessed
+  cases hg : l2.getLast? with
+  | none => have : l2 = [] := by simpa using hg
+            subst this; simp at hx
+  | some b =>
+    obtain ⟨ys, hys⟩ := List.getLast?_eq_some_iff.mp hg
+    subst hys
+    rw [List.pairwise_append] at hs
+    rcases List.mem_append.mp hx with h | h
+    · exact Nat.le_of_lt (hs.2.2 x h b (List.mem_singleton.mpr rfl))
+    · rw [List.mem_singleton.mp h]; exact Nat.le_refl _
+
+theorem lastProcessed_snoc (l2 : List L2Blk) (b : L2Blk) : lastProcessed (l2 ++ [b]) = b.num := by
+  unfold lastProcessed; simp
+
+theorem bridgesIn_snoc (l2 : List L2Blk) (b : L2Blk) (f t : Nat) (h : t < b.num) :
+    bridgesIn (l2 ++ [b]) f t = bridgesIn l2 f t := by
+  unfold bridgesIn
+  rw [List.filter_append]
+  have : [b].filter (fun b => decide (f ≤ b.num) && decide (b.num ≤ t)) = [] := by
+    apply List.filter_eq_nil_iff.mpr
+    intro x hx; rw [List.mem_singleton.mp hx]; simp; omega
+  rw [this]; simp
+
+theorem claimsIn_snoc (l2 : List L2Blk) (b : L2Blk) (f t : Nat) (h : t < b.num) :
+    claimsIn (l2 ++ [b]) f t = claimsIn l2 f t := by
+  unfold claimsIn
+  rw [List.filter_append]
+  have : [b].filter (fun b => decide (f ≤ b.num) && decide (b.num ≤ t)) = [] := by
+    apply List.filter_eq_nil_iff.mpr
+    intro x hx; rw [List.mem_singleton.mp hx]; simp; omega
+  rw [this]; simp
+
+theorem contentOK_snoc (l2 : List L2Blk) (b : L2Blk) (c : ACert) (hb : lastProcessed l2 < b.num)
+    (h : ContentOK l2 c) : ContentOK (l2 ++ [b]) c := by
+  obtain ⟨h1, h2, h3, h4⟩ := h
+  refine ⟨by rw [lastProcessed_snoc]; omega, ?_, ?_, h4⟩
+  · rw [bridgesIn_snoc _ _ _ _ (by omega)]; exact h2
+  · rw [claimsIn_snoc _ _ _ _ (by omega)]; exact h3
 
 /-! #### submitting a certificate -/
 
@@ -615,8 +669,13 @@ theorem send_inv (size : Params → Nat) (s : Sys) (hi : Inv s) (hup : s.up = tr
     rw [if_neg hf]
     have hsync := hi.syncUp hup
     have hlast := inv_lastOK s hi
-    obtain ⟨b1, b2, b3, _, _, _, _, b8, b9⟩ :=
+    obtain ⟨b1, b2, b3, b4, b5, b6, b7, b8, b9⟩ :=
       build_spec size s.cfg s.l2 hi.l2wf s.loc s.agg hsync hlast c retry tb hb
+    have hcont : ∀ x ∈ s.agg ++ [{ c with id := s.agg.length + 1 }], ContentOK s.l2 x := by
+      intro x hx
+      rcases List.mem_append.mp hx with h | h
+      · exact hi.content x h
+      · rw [List.mem_singleton.mp h]; exact ⟨by rw [b3]; exact b4, b5, b6, b7⟩
     -- the Agglayer's last certificate is decided, and the node's last record has its status
     have hlastc : ∀ x, s.agg.getLast? = some x → x.status.isOpen = false ∧
         ∃ r, lastRow s.loc = some r ∧ Matches r x ∧ r.status = x.status := by
@@ -644,7 +703,7 @@ theorem send_inv (size : Params → Nat) (s : Sys) (hi : Inv s) (hup : s.up = tr
     by_cases hcr : crash = true
     · -- the process dies between the submission and the local write
       rw [if_pos hcr]
-      refine ⟨hi.withPrev, hi.l2wf, g1, g2, g3, hi.sorted, hrowsOld, fun h => by simp at h, ?_⟩
+      refine ⟨hi.withPrev, hi.l2wf, g1, g2, g3, hi.sorted, hrowsOld, fun h => by simp at h, ?_, hi.l2sorted, hcont⟩
       intro _
       unfold SyncDown
       simp only
@@ -685,7 +744,8 @@ theorem send_inv (size : Params → Nat) (s : Sys) (hi : Inv s) (hup : s.up = tr
             simp only at h2
             rw [hm.height] at h1
             omega
-      refine ⟨hi.withPrev, hi.l2wf, g1, g2, g3, saveRow_sorted _ _ hi.sorted, ?_, ?_, fun h => by simp [hup] at h⟩
+      refine ⟨hi.withPrev, hi.l2wf, g1, g2, g3, saveRow_sorted _ _ hi.sorted, ?_, ?_, fun h => by simp [hup] at h,
+        hi.l2sorted, hcont⟩
       · intro r hr
         rcases mem_saveRow _ _ _ hr with e | hr
         · subst e
@@ -771,7 +831,15 @@ theorem move_inv (s : Sys) (hi : Inv s) (id : Nat) (st : St) : Inv { s with agg 
     have : (s.agg.take i)[j] = s.agg[j] := by simp
     rw [← e, this]
     exact mv_closed _ _ _ (hi.closedPrefix j hj2 (by omega))
-  refine ⟨hi.withPrev, hi.l2wf, ?_, ?_, ?_, hi.sorted, ?_, ?_, ?_⟩
+  refine ⟨hi.withPrev, hi.l2wf, ?_, ?_, ?_, hi.sorted, ?_, ?_, ?_, hi.l2sorted, ?_⟩
+  rotate_right
+  · intro c hc
+    obtain ⟨c0, hc0, e⟩ := List.mem_map.mp hc
+    subst e
+    have := hi.content c0 hc0
+    unfold mv; split
+    · exact this
+    · exact this
   · intro i h
     simp only [List.getElem_map, mv_id]
     exact hi.ids i (by simpa using h)
@@ -887,7 +955,8 @@ theorem lastOf (agg : List ACert) : lastOfPS (lastSettled agg) (lastPending agg)
     · simp only [h, if_false]
 
 theorem inv_set_up (s : Sys) (hi : Inv s) (h : SyncUp s.loc s.agg) : Inv { s with up := true } :=
-  ⟨hi.withPrev, hi.l2wf, hi.ids, hi.closedPrefix, hi.chain, hi.sorted, hi.rows, fun _ => h, fun hu => by simp at hu⟩
+  ⟨hi.withPrev, hi.l2wf, hi.ids, hi.closedPrefix, hi.chain, hi.sorted, hi.rows, fun _ => h, fun hu => by simp at hu,
+    hi.l2sorted, hi.content⟩
 
 theorem mem_of_lastRow (loc : List Row) (r : Row) (h : lastRow loc = some r) : r ∈ loc :=
   List.mem_of_getLast? h
@@ -980,7 +1049,7 @@ theorem restart_inv (s : Sys) (hi : Inv s) : Inv (restart s).1 := by
           have := hle l hl
           simp only [rowOfHeader]; omega
       refine ⟨h1.withPrev, h1.l2wf, h1.ids, h1.closedPrefix, h1.chain, saveRow_sorted _ _ h1.sorted, ?_, ?_,
-        fun hu => by simp at hu⟩
+        fun hu => by simp at hu, h1.l2sorted, h1.content⟩
       · intro r hr
         rcases mem_saveRow _ _ _ hr with e | hr
         · subst e; exact ⟨c, hcid, hrow⟩
@@ -1016,12 +1085,22 @@ theorem step_inv (size : Params → Nat) (s : Sys) (hi : Inv s) (op : Op) (hop :
   | l2blk b =>
     simp only [step]
     split
-    · refine ⟨hi.withPrev, ?_, hi.ids, hi.closedPrefix, hi.chain, hi.sorted, hi.rows, hi.syncUp, hi.syncDown⟩
-      intro x hx
-      simp only at hx
-      rcases List.mem_append.mp hx with h | h
-      · exact hi.l2wf x h
-      · rw [List.mem_singleton.mp h]; exact hop
+    · rename_i hlt
+      refine ⟨hi.withPrev, ?_, hi.ids, hi.closedPrefix, hi.chain, hi.sorted, hi.rows, hi.syncUp, hi.syncDown, ?_, ?_⟩
+      · intro x hx
+        simp only at hx
+        rcases List.mem_append.mp hx with h | h
+        · exact hi.l2wf x h
+        · rw [List.mem_singleton.mp h]; exact hop
+      · simp only
+        rw [List.pairwise_append]
+        refine ⟨hi.l2sorted, by simp, ?_⟩
+        intro x hx y hy
+        rw [List.mem_singleton.mp hy]
+        have := l2_le_lastProcessed s.l2 hi.l2sorted x hx
+        omega
+      · intro c hc
+        exact contentOK_snoc s.l2 b c hlt (hi.content c hc)
     · exact hi
   | epoch c => exact tick_inv size s hi true c
   | status c => exact tick_inv size s hi false c
@@ -1030,13 +1109,15 @@ theorem step_inv (size : Params → Nat) (s : Sys) (hi : Inv s) (op : Op) (hop :
   | failSub => exact hi.of_eq rfl rfl rfl rfl rfl
   | failRec => exact hi.of_eq rfl rfl rfl rfl rfl
   | crash =>
-    refine ⟨hi.withPrev, hi.l2wf, hi.ids, hi.closedPrefix, hi.chain, hi.sorted, hi.rows, fun h => by simp [step] at h, ?_⟩
+    refine ⟨hi.withPrev, hi.l2wf, hi.ids, hi.closedPrefix, hi.chain, hi.sorted, hi.rows, fun h => by simp [step] at h, ?_,
+      hi.l2sorted, hi.content⟩
     intro _
     by_cases hu : s.up = true
     · exact syncDown_of_up _ _ (hi.syncUp hu)
     · exact hi.syncDown (by simpa using hu)
   | losedb =>
-    refine ⟨hi.withPrev, hi.l2wf, hi.ids, hi.closedPrefix, hi.chain, ?_, ?_, fun h => by simp [step] at h, ?_⟩
+    refine ⟨hi.withPrev, hi.l2wf, hi.ids, hi.closedPrefix, hi.chain, ?_, ?_, fun h => by simp [step] at h, ?_,
+      hi.l2sorted, hi.content⟩
     · simp [step]
     · intro r hr; simp [step] at hr
     · intro _; exact Or.inl rfl
